@@ -23,6 +23,7 @@ Answer:  err:tls | err:matcher | err:addr |
 -/
 import CaddyModel.C11.Spec
 import CaddyModel.C11.Caddyfile
+import CaddyModel.C11.Names
 
 namespace CaddyModel.C11
 
@@ -323,13 +324,30 @@ def handleCF (hp sp opts names sites : String) : String :=
     else "bad-op"
   | _, _, _, _, _ => "bad-op"
 
+/-- `nm <hex a> <hex b>`: certmagic's predicates on `a`, and `MatchWildcard(a, b)` -/
+def handleNM (a b : String) : String :=
+  match Hex.decode a, Hex.decode b with
+  | some a, some b =>
+    if a.all (· < 128) ∧ b.all (· < 128) then
+      "ok " ++ showBit (qualifiesForCert a) ++ showBit (qualifiesForPublic a) ++ showBit (isIP a) ++
+        showBit (isInternal a) ++ " " ++ showBit (matchWildcard a b)
+    else "bad-op"
+  | _, _ => "bad-op"
+
+/-- the certmagic values a `cfg` line carries are the values the byte-level models compute -/
+def flagsMatchModel (names : List NameInfo) : Bool :=
+  names.all fun x =>
+    x.q == qualifiesForCert x.str && x.pub == qualifiesForPublic x.str && x.ip == isIP x.str &&
+    x.internal == isInternal x.str && x.mw == names.map (fun y => matchWildcard x.str y.str)
+
 def handle : List String → String
+  | ["nm", a, b] => handleNM a b
   | ["cf", hp, sp, opts, names, sites] => handleCF hp sp opts names sites
   | ["cfg", k, hp, sp, names, servers, policies, loaded] =>
     match nat? k, nat? hp, nat? sp, list? ";" parseName names, list? ";" parseServer servers,
           list? ";" parsePolicy policies, bits? loaded with
     | some k, some hp, some sp, some names, some srvs, some pols, some [ld] =>
-      if wellFormed k hp sp names srvs pols ld then
+      if wellFormed k hp sp names srvs pols ld && flagsMatchModel names then
         showOutcome ⟨hp, sp, srvs.map (·.2), pols, indexOfName reservedName srvs 0⟩ (paramsOf names) (names.map (·.str))
           (phase1 ⟨hp, sp, srvs.map (·.2), pols, indexOfName reservedName srvs 0⟩ (paramsOf names)
             (sortedOrders ⟨hp, sp, srvs.map (·.2), pols, indexOfName reservedName srvs 0⟩ (srvs.map (·.1)) (names.map (·.str))))
